@@ -166,6 +166,7 @@ type translator struct {
 	funcs   []*funcInfo
 	byObj   map[types.Object]*funcInfo
 	globals map[types.Object]string // package-level tables -> Coq name
+	sp      *spec
 }
 
 func translate(repo string, sp *spec) (text string, names []string, err error) {
@@ -178,7 +179,7 @@ func translate(repo string, sp *spec) (text string, names []string, err error) {
 			panic(r)
 		}
 	}()
-	T := &translator{repo: repo, pkgs: map[string]*pkgInfo{}, byObj: map[types.Object]*funcInfo{}, globals: map[types.Object]string{}}
+	T := &translator{repo: repo, pkgs: map[string]*pkgInfo{}, byObj: map[types.Object]*funcInfo{}, globals: map[types.Object]string{}, sp: sp}
 	find := func(file, fn string) (*pkgInfo, *ast.FuncDecl) {
 		dir := filepath.ToSlash(filepath.Dir(file))
 		p := T.pkgs[dir]
@@ -280,6 +281,9 @@ func translate(repo string, sp *spec) (text string, names []string, err error) {
 	fmt.Fprintf(&b, "   Semantics of every operation: Model/GoSem.v.  int is Z (no overflow), byte is N with\n")
 	fmt.Fprintf(&b, "   wrap-around, []byte/string are list N, panics and running out of fuel are explicit. *)\n")
 	fmt.Fprintf(&b, "From SV Require Import Model.Common Model.GoSem.\n")
+	for _, r := range sp.Require {
+		fmt.Fprintf(&b, "From SV Require %s.\n", r)
+	}
 	for _, fi := range order {
 		b.WriteString("\n")
 		b.WriteString(fi.text)
@@ -337,6 +341,7 @@ func (t *ftr) gtypeOf(n ast.Node, ty types.Type) gtype {
 	if ty == nil {
 		t.fail(n, "expression without a type (unresolved import or type error)")
 	}
+	ty = types.Unalias(ty)
 	switch u := ty.(type) {
 	case *types.Basic:
 		switch u.Kind() {
@@ -361,6 +366,9 @@ func (t *ftr) gtypeOf(n ast.Node, ty types.Type) gtype {
 	case *types.Named:
 		if u.Obj().Pkg() == nil && u.Obj().Name() == "error" {
 			return gtype{k: kErr}
+		}
+		if _, ok := u.Underlying().(*types.Basic); ok {
+			return t.gtypeOf(n, u.Underlying()) // e.g. type MutableString string
 		}
 	case *types.Tuple:
 		g := gtype{k: kTuple}
